@@ -58,10 +58,16 @@ CmpFrom(x, y, i) == IF i > Len(x) THEN 1
                     ELSE CmpFrom(x, y, i + 1)
 Lt(x, y) == CmpFrom(x, y, 1) = 0
 Le(x, y) == CmpFrom(x, y, 1) # 2
+\* Lt(Dist(t, a), Dist(t, b)) without building the two distances: equal bytes give equal XOR bytes, so the first byte
+\* in which a and b differ decides (the order of big-endian integers is lexicographic)
+RECURSIVE CloserFrom(_, _, _, _)
+CloserFrom(t, a, b, i) == IF i > Len(a) THEN FALSE
+                          ELSE IF a[i] = b[i] THEN CloserFrom(t, a, b, i + 1)
+                          ELSE (a[i] ^^ t[i]) < (b[i] ^^ t[i])
+Closer(t, a, b) == CloserFrom(t, a, b, 1)           \* a is strictly closer to t than b
 \* ids of S by ascending distance to the point t; ties (equal digests) by id
 Sorted(dig, t, S) ==
-    SortSeq(SetToSeq(S), LAMBDA p, q : LET dp == Dist(t, dig[p])  dq == Dist(t, dig[q]) IN
-                                       Lt(dp, dq) \/ (dp = dq /\ p < q))
+    SortSeq(SetToSeq(S), LAMBDA p, q : Closer(t, dig[p], dig[q]) \/ (dig[p] = dig[q] /\ p < q))
 Take(s, n) == SubSeq(s, 1, Min2(n, Len(s)))
 Closest(dig, t, S, n) == Take(Sorted(dig, t, S), n)
 
@@ -118,8 +124,8 @@ AnsKeys(x) == [i \in 1..Len(x.ans) |-> x.ans[i].k]
 \* closeness only: the answered records are in ascending distance to the key, and no chunk-type record held but
 \* left out is closer to the key than an answered one
 ClosestPrefix(dig, t, seq, S) ==
-    /\ \A i, j \in 1..Len(seq) : i < j => Le(Dist(t, dig[seq[i]]), Dist(t, dig[seq[j]]))
-    /\ \A h \in S \ ToSet(seq) : \A i \in 1..Len(seq) : ~Lt(Dist(t, dig[h]), Dist(t, dig[seq[i]]))
+    /\ \A i, j \in 1..Len(seq) : i < j => ~Closer(t, dig[seq[j]], dig[seq[i]])
+    /\ \A h \in S \ ToSet(seq) : \A i \in 1..Len(seq) : ~Closer(t, dig[h], dig[seq[i]])
 AnswerClosestOnly(x) ==
     (x.kind = "proofs" /\ x.difficulty # 1) => ClosestPrefix(x.dig, x.dig[x.key], AnsKeys(x), x.held.chunks)
 \* all of it: which records, how many, chunk type only, each with the proof of its own bytes under the request's nonce
@@ -173,7 +179,7 @@ ExpectedG(x) == CanChallenge(x.peers, x.own) => (Len(x.expected) = G /\ Cardinal
 ChallengeClosestOnly(x) ==
     CanChallenge(x.peers, x.own) =>
         /\ x.target \in x.own
-        /\ Cardinality({k \in x.own : Lt(Dist(x.dig[x.self], x.dig[k]), Dist(x.dig[x.self], x.dig[x.target]))}) < Cardinality(x.own) \div 2
+        /\ Cardinality({k \in x.own : Closer(x.dig[x.self], x.dig[k], x.dig[x.target])}) < Cardinality(x.own) \div 2
         /\ ClosestPrefix(x.dig, x.dig[x.target], x.expected, x.own)
 ReportKind(x) == /\ ReportedSet(x) \subseteq ToSet(x.asked)
                  /\ Cardinality(ReportedSet(x)) = Len(x.reported)
